@@ -34,7 +34,7 @@ JSB = [('magic', 0, 4), ('blocktype', 4, 4), ('blocksize', 12, 4), ('maxlen', 16
        ('feature_compat', 36, 4), ('feature_incompat', 40, 4), ('nr_users', 64, 4), ('csum_type', 0x50, 1), ('checksum', 0xfc, 4)]
 
 POINTER_FIELDS = {'file_acl', 'iblock0', 'iblock1', 'iblock2', 'iblock3', 'iblock5', 'iblock12', 'iblock13', 'iblock14', 'start_lo', 'leaf_lo', 'block_bitmap', 'inode_bitmap', 'inode_table'}
-CLASSES = ['sb', 'gd', 'bbitmap', 'ibitmap', 'inode', 'extent', 'ind', 'dirent', 'dx', 'xattr', 'special', 'jsb', 'bytes', 'blockop']
+CLASSES = ['sb', 'gd', 'bbitmap', 'ibitmap', 'inode', 'extent', 'ind', 'dirent', 'dx', 'xattr', 'special', 'jsb', 'bytes', 'blockop', 'dirloop']
 KINDS = ['zero', 'ones', 'inc', 'dec', 'bitflip', 'random', 'swap', 'other_block', 'meta_block', 'out_of_range', 'small', 'wrap']
 SUMMARY_CLASSES = ['bbitmap', 'ibitmap', 'gd_counts', 'gd_flags', 'csum_field']
 
@@ -386,6 +386,55 @@ def _apply_one(img, cls, obj, field, kind, val, fixup):
                     i0 = g * fs.ipg + ((blk - it) * bs + off) // fs.isize + 1; i1 = g * fs.ipg + ((blk - it) * bs + min(bs - 1, off + n * (1 + kind))) // fs.isize + 1
                     extra = ' inodes[%s]' % ','.join(img.ino_tag(i) for i in range(i0, min(i1, i0 + 3) + 1)); break
         return 'bytes %s blk %d off %d n %d%s' % (what, blk, off, n, extra)
+    if cls == 'dirloop':
+        # a consistent-looking but unreachable structure: directory A is unlinked from its parent P and its '..' is pointed at one of its own subdirectories B
+        # (link counts and checksums adjusted), so A and B form a loop that is cut off from the root. field%3: 0 = loop, 1 = only unlink A (plain unconnected directory), 2 = loop without link count fix
+        def entries(blk):
+            raw = img.rd(blk * bs, bs); out = []; off = 0
+            while off + 8 <= bs:
+                i_, rl, nl, ft = struct.unpack_from('<IHBB', raw, off)
+                if rl < 8 or rl % 4 or off + rl > bs: break
+                out.append((off, i_, raw[off + 8:off + 8 + nl])); off += rl
+            return out
+        first = {ino: blk for blk, ino, lb, kd in img.dir_blocks if lb == 0}
+        dirset = set(first); cands = []
+        for a in sorted(dirset):
+            if a == 2: continue
+            ea = entries(first[a])
+            if len(ea) < 2 or ea[1][2] != b'..': continue
+            subs = [i_ for blk, ino, lb, kd in img.dir_blocks if ino == a and kd in ('leaf', 'dxroot') for off, i_, nm in entries(blk) if i_ in dirset and nm not in (b'.', b'..') and i_ != a]
+            if subs and ea[1][1] in dirset: cands.append((a, ea[1][1], subs))
+        if not cands: return None
+        a, p_, subs = cands[obj % len(cands)]; b_ = subs[val % len(subs)]; mode = field % 3
+        hit = None
+        for blk, ino, lb, kd in img.dir_blocks:
+            if ino != p_ or kd not in ('leaf', 'dxroot'): continue
+            for off, i_, nm in entries(blk):
+                if i_ == a and nm not in (b'.', b'..'): hit = (blk, off, kd); break
+            if hit: break
+        if not hit: return None
+        img.wr(hit[0] * bs + hit[1], struct.pack('<I', 0)); img.fix_dir_block(hit[0], p_, 'leaf' if hit[2] == 'leaf' else 'dxroot')
+        def bump(ino, d):
+            o = img.ino_off(ino) + 0x1a; v = int.from_bytes(img.rd(o, 2), 'little'); img.wr(o, ((v + d) & 0xffff).to_bytes(2, 'little')); img.fix_inode(ino)
+        if mode != 1:
+            # B gets an entry for A (carved out of the slack of one of its entries; linear directories only, an htree leaf would need the right hash position)
+            slot = None
+            for blk, ino, lb, kd in img.dir_blocks:
+                if ino != b_ or kd != 'leaf' or (lb == 0 and fs.read_inode(b_).flags & 0x1000): continue
+                raw = img.rd(blk * bs, bs)
+                for off, i_, nm in entries(blk):
+                    rl = struct.unpack_from('<H', raw, off + 4)[0]; used = (8 + len(nm) + 3) & ~3 if i_ else 0
+                    if raw[off + 7] == 0xDE and i_ == 0: continue      # checksum tail
+                    if rl - used >= 16: slot = (blk, off, rl, used); break
+                if slot: break
+            if not slot: return None
+            blk, off, rl, used = slot
+            if used: img.wr(blk * bs + off + 4, struct.pack('<H', used))
+            img.wr(blk * bs + off + used, struct.pack('<IHBB', a, rl - used, 5, 2 if fs.incompat & 2 else 0) + b'zloop\0\0\0'); img.fix_dir_block(blk, b_, 'leaf')
+            kd0 = [kd for blk, ino, lb, kd in img.dir_blocks if ino == a and lb == 0][0]
+            img.wr(first[a] * bs + 12, struct.pack('<I', b_)); img.fix_dir_block(first[a], a, 'leaf' if kd0 == 'leaf' else 'dxroot')
+            if mode == 0: bump(p_, -1); bump(b_, +1)
+        return 'dirloop dir %d unlinked from %d%s' % (a, p_, '' if mode == 1 else ', .. -> its subdirectory %d%s' % (b_, '' if mode == 0 else ' (link counts not adjusted)'))
     if cls == 'blockop':
         pool = [t[0] for t in img.tree_blocks] + [t[0] for t in img.ind_blocks] + [t[0] for t in img.dir_blocks] + img.xattr_blocks + [fs.gds()[g].bbitmap for g in range(fs.ngroups)] + [fs.gds()[0].itable]
         if len(pool) < 2: return None
@@ -490,5 +539,6 @@ def areas(desc, cfg_features=()):
                 for r in roles: out.add(r + '-inode')
             out.add('bytes-' + m.group(1)); continue
         if d.startswith('block '): out.add('blockop'); continue
+        if d.startswith('dirloop '): out.add('dirloop' if '..' in d else 'dir-unlinked'); continue
         out.add('other')
     return sorted(out)
